@@ -316,6 +316,16 @@ impl Prop for C01 {
             shim.mark(i as i64, if good { 1 } else { 2 });
             ok.push(good);
             states.push(model.docs.clone());
+            // periodic policy: what the server's flush task does once per interval.  After a
+            // completed sync_wal() every acknowledged operation is "older than one flush
+            // interval" in the property's sense and must survive power loss.
+            if cfg.fsync == Fsync::PeriodicHour && mix64(case.loss_seed ^ 0x51c, i as u64) % 2 == 0 {
+                if let Some(be) = b.as_ref() {
+                    if be.sync_wal().is_ok() {
+                        shim.mark(i as i64, 3);
+                    }
+                }
+            }
         }
         shim.end();
         let log = shim.take();
@@ -345,6 +355,7 @@ impl Prop for C01 {
         }
         let mut acked = 0usize;
         let mut inflight: Option<usize> = None;
+        let mut just_synced = false;
         // structure of the current operation for the "inside" classification
         let mut inside_tags: Vec<&'static str> = vec![];
         for cut in start..=n {
@@ -366,11 +377,16 @@ impl Prop for C01 {
                 ex.rep.label(&format!("inside:{}", inside));
             }
             let mut variants = vec![Loss::Kill];
-            if power && fs.has_unsynced() {
+            if (power || just_synced) && fs.has_unsynced() {
                 variants.push(Loss::DropAll);
                 variants.push(Loss::Seeded(mix64(case.loss_seed, cut as u64)));
                 variants.push(Loss::Seeded(mix64(case.loss_seed ^ 0x5bd1, cut as u64)));
             }
+            if just_synced {
+                ex.rep.label("power_loss_right_after_sync_wal");
+                ex.rep.nontrivial = true;
+            }
+            just_synced = false;
             for loss in &variants {
                 let st = fs.crash_state(loss);
                 ex.judge(&st, acked, inflight, cut, None, loss, &inside)?;
@@ -397,6 +413,11 @@ impl Prop for C01 {
             // advance
             let e = ex.log[cut].clone();
             match &e {
+                Eff::Mark { a, b } if *a >= 0 && *b == 3 => {
+                    // sync_wal() completed while idle: the state right after this mark is judged
+                    // under power loss although the policy does not fsync every write
+                    just_synced = true;
+                }
                 Eff::Mark { a, b } if *a >= 0 => {
                     if *b == 0 {
                         inflight = Some(*a as usize);
@@ -440,7 +461,7 @@ impl Prop for C01 {
 
 pub fn main(ctx: &Ctx) {
     ctx.assume("power-loss model exactly as written in the property: per file an in-order prefix of the data operations since its last fsync, per directory an in-order prefix of the entry operations since the last directory fsync; fsync of a file does not persist its directory entry");
-    ctx.assume("power loss is judged for the policies that fsync every write (Always, Periodic(0)); Never and Periodic(1 h) are judged under process kill only (the property promises nothing more for them)");
+    ctx.assume("power loss is judged at every crash point for the policies that fsync every write (Always, Periodic(0)); for Periodic(1 h) it is judged at the instants right after a completed HnswBackend::sync_wal() (what the server's flush task calls once per interval; generated after about half of the operations), where every acknowledged operation is older than a flush interval in the property's sense; Never is judged under process kill only");
     ctx.assume("crash points before the initial creation of the database has completed are not explored");
     run_committed_replays(ctx, &C01);
     run_pbt(ctx, &C01, ctx.tier.pick(3_000, 40_000));
